@@ -16,7 +16,7 @@ from .c08 import prog_sig, shrink_candidates as c08_shrink
 
 PROP = 'C07'
 LEVEL = 'exploration'
-N = {'quick': 25000, 'thorough': 800000}
+N = {'quick': 60000, 'thorough': 2000000}
 RULE = ('seeded TdmsWriter programs (as C08) with session splits; after every session end the file is read with '
         'TdmsFile.read (converted and raw timestamps) and compared with the model of accepted calls: per channel '
         'the concatenation with the same dtype and bytes, per object the last value per property with the TDMS '
@@ -215,8 +215,10 @@ def execute(case):
             res.violations.append(V('C07.writer-raises', 'outside write_segment: %s: %s' % (type(exc).__name__, exc),
                                     exc=type(exc).__name__))
             return res
-        if tr.model.props.get('/') is not None and any(tr.model.props[p] for p in tr.model.props):
-            pass
+        for i, rec in enumerate(tr.calls):
+            if not rec['accepted'] and rec.get('must_accept'):
+                res.violations.append(V('C07.rejects-supported-input', 'call %d uses only supported objects and values but '
+                                        'write_segment raised %s' % (i, rec['exc']), exc=rec['exc'].split(':')[0]))
     return res
 
 
